@@ -2,6 +2,7 @@
 Implementation under test:
   kapture.utils.upgrade.upgrade_1_0_to_1_1_inplace        (in place; what the downloader runs after install)
   tools/kapture_upgrade_1_0_to_1_1.upgrade_1_0_to_1_1     (copy into a new directory, one image transfer strategy)
+  tools/kapture_download_dataset.Dataset.install / .upgrade (histories of installs into one install directory)
 observed through the resulting directory trees and kapture.io.csv.kapture_from_dir on them."""
 import copy
 import logging
@@ -12,11 +13,11 @@ import shutil
 import kv
 
 ID = 'C20'
-COQ_MODELS = ['MUpgrade']
-COQ_HEADER = ('From KV Require Import Eqb Str AL.\nFrom KV.Model Require Import MUpgrade.\n'
+COQ_MODELS = ['MUpgrade', 'MDlUpgrade']
+COQ_HEADER = ('From KV Require Import Eqb Str AL.\nFrom KV.Model Require Import MUpgrade MDlUpgrade.\n'
               'Local Open Scope string_scope.\nLocal Open Scope list_scope.')
-CASE_TYPE = 'MUpgrade.case'
-CHECK_FN = 'MUpgrade.check_case'
+CASE_TYPE = 'MDlUpgrade.xcase'
+CHECK_FN = 'MDlUpgrade.check_xcase'
 SHARD_SIZE = 12
 CASE_TIMEOUT = 120
 SEARCH_CAP = 400
@@ -29,7 +30,12 @@ RULE = ('case = a version 1.0 dataset directory (text tables written by kapture_
         'upgraded by the in-place route (on a copy) and by the copy route once per listed strategy; each result is listed '
         'file by file and loaded with kapture_from_dir. Every element type name in every spelling (13 names x bare / np. / numpy. prefix, as far as the readers under test accept them) occurs in a 1.0 descriptor file of a deterministic block; every subset of the five reconstruction parts is enumerated on a two-image dataset (quick: defaulted names, version lines present; thorough: x explicit keypoints type x version lines absent). A further stream holds trees outside the domain (wrong or missing '
         'version lines, unknown element type, unnamed feature without explicit type, matches/observations without a '
-        'keypoints type, malformed observation rows, already upgraded trees). Non-trivial = in the domain of at least one '
+        'keypoints type, malformed observation rows, already upgraded trees). A third stream holds downloader histories: '
+        '1 to 4 dataset archives installed one after the other by the real Dataset.install() (archive deflated, marked, '
+        'Dataset.upgrade()) into one install directory (names with blanks, glob characters, hidden folders), through one '
+        'InstallDir object or a new one per step, mixed with runs of the upgrade command, with directories that are no 1.0 '
+        'dataset (left alone) and, last, one the upgrade refuses; every dataset directory is listed after every step and '
+        'loaded at the end. Non-trivial = in the domain of at least one '
         'route and holding at least one reconstruction part or three tables; distinct = distinct (tree, arguments, strategies).')
 TRUSTED = ['kapture_from_dir followed by kapture_to_dir is used as the canonical printer of the loaded text tables '
            '(their own correctness is the subject of C01/C02/C04)',
@@ -261,6 +267,8 @@ def _call(fn):
 
 def run_impl(case, ctx):
     _quiet()
+    if 'session' in case:
+        return run_session(case, ctx)
     from kapture.utils.upgrade import upgrade_1_0_to_1_1_inplace
     from kapture_upgrade_1_0_to_1_1 import upgrade_1_0_to_1_1
     from kapture.io.binary import TransferAction
@@ -308,6 +316,171 @@ def run_impl(case, ctx):
         shutil.rmtree(src, ignore_errors=True)
     shutil.rmtree(base, ignore_errors=True)
     return obs
+
+
+
+# ------------------------------------------------------------------------------------------------ downloader histories
+DL_ARGS = {'kt': None, 'dt': None, 'gt': None, 'dm': 'L2', 'gm': 'L2'}
+
+
+def _single(tree):
+    """A dataset directory of a history, seen as a case of the in-place route the way the downloader calls it."""
+    return {'tree': tree, 'args': DL_ARGS, 'strategies': []}
+
+
+def wants_upgrade(tree):
+    """Dataset.upgrade looks at the first line of sensors/sensors.txt: version 1.0 or none."""
+    f = tree['top'].get('sensors/sensors.txt')
+    return f is not None and py_version(f[1]) in (None, '1.0')
+
+
+def run_session(case, ctx):
+    """The real downloader: every install step makes a real archive of the dataset, and Dataset.install() deflates it,
+    marks it and runs Dataset.upgrade(); only the size request to the server is answered locally."""
+    import tarfile
+    import kapture_download_dataset as dl
+    logging.getLogger('downloader').setLevel(logging.CRITICAL + 1)
+    logging.getLogger('downloader').propagate = False
+    sess = case['session']
+    base = os.path.join(ctx['tmp'], 'c')
+    shutil.rmtree(base, ignore_errors=True)
+    iroot = os.path.join(base, 'install', sess['root'])
+    os.makedirs(iroot)
+    obs = {'steps': [], 'baselines': {}, 'views': {}}
+    installed = []           # (dataset name, directory below the install root)
+    idir = None
+    real_size = dl.get_remote_file_size
+    try:
+        for st in sess['steps']:
+            if idir is None or st.get('fresh'):
+                idir = dl.InstallDir(index_filepath=os.path.join(iroot, dl.INDEX_FILENAME), install_dir_path=iroot)
+            so = {'raised': False, 'exc': None, 'ret': None}
+            if st['op'] == 'install':
+                stage = os.path.join(base, 'stage')
+                shutil.rmtree(stage, ignore_errors=True)
+                materialise(st['tree'], os.path.join(stage, st['sub']))
+                v0, _ = view_of(os.path.join(stage, st['sub']), os.path.join(base, 'resave'))
+                obs['baselines'][st['sub']] = None if v0 is None else {
+                    k: r for k, r in v0['tables'].items() if not k.endswith('points3d.txt')}
+                archive = os.path.join(iroot, st['name'] + '.tar.gz')
+                top = st['sub'].split('/')[0]
+                with tarfile.open(archive, 'w:gz') as tf:
+                    tf.add(os.path.join(stage, top), arcname=top)
+                shutil.rmtree(stage, ignore_errors=True)
+                size = os.path.getsize(archive)
+                dl.get_remote_file_size = lambda url, _size=size: _size
+                ds = dl.Dataset(name=st['name'], install_dir=idir, archive_url='http://localhost/%s.tar.gz' % st['name'],
+                                archive_sha256sum=dl.compute_sha256sum(archive))
+                installed.append((st['name'], st['sub']))
+                try:
+                    so['ret'] = ds.install()
+                except Exception as e:  # noqa
+                    so['raised'], so['exc'] = True, f'{type(e).__name__}: {e}'
+            else:
+                name = installed[st.get('which', 0) % len(installed)][0]
+                ds = dl.Dataset(name=name, install_dir=idir, archive_url='http://localhost/%s.tar.gz' % name,
+                                archive_sha256sum='0')
+                try:
+                    so['ret'] = ds.upgrade()
+                except Exception as e:  # noqa
+                    so['raised'], so['exc'] = True, f'{type(e).__name__}: {e}'
+            so['root'] = [[sub, snapshot(os.path.join(iroot, sub))] for _, sub in installed]
+            obs['steps'].append(so)
+        for _, sub in installed:
+            v, exc = view_of(os.path.join(iroot, sub), os.path.join(base, 'resave'))
+            obs['views'][sub] = {'view': v, 'exc': exc}
+    finally:
+        dl.get_remote_file_size = real_size
+        shutil.rmtree(base, ignore_errors=True)
+    return obs
+
+
+def _session_trees(case):
+    return [(st['sub'], st['tree']) for st in case['session']['steps'] if st['op'] == 'install']
+
+
+def session_kind(tree):
+    """'1.0' = a 1.0 dataset in the domain of the property (all names defaulted), 'other' = no 1.0 dataset for the
+    downloader (left alone), 'bad' = looks like 1.0 to the downloader but is outside the domain."""
+    if not wants_upgrade(tree):
+        return 'other'
+    return '1.0' if expected_content(_single(tree), strict=False) is not None else 'bad'
+
+
+def oracle_session(case, obs):
+    trees = _session_trees(case)
+    kinds = {sub: session_kind(t) for sub, t in trees}
+    calm = 'bad' not in kinds.values()
+    steps = case['session']['steps']
+    first_seen = {}
+    for i, (st, so) in enumerate(zip(steps, obs['steps'])):
+        if calm and so['raised']:
+            return f'downloader: step {st["op"]} raises on 1.0 datasets: {so["exc"]}'
+        if calm and st['op'] == 'install' and so['ret'] != 'installed':
+            return f'downloader: install does not end as installed ({so["ret"]})'
+        if calm and st['op'] != 'install' and so['ret'] is not True:
+            return 'downloader: the upgrade command reports a failure'
+        for sub, snap in so['root']:
+            first_seen.setdefault(sub, i)
+            t0 = dict(trees)[sub]
+            if kinds[sub] == 'other' and snap != _norm_tree(t0):
+                return 'downloader: a directory that is no 1.0 dataset was modified'
+            if kinds[sub] == '1.0' and calm:
+                if py_version(snap['top']['sensors/sensors.txt'][1]) != '1.1':
+                    return ('downloader: a 1.0 dataset is still in 1.0 after its installation' if first_seen[sub] == i
+                            else 'downloader: a 1.0 dataset is still in 1.0 after a later pass')
+                if first_seen[sub] < i and snap != dict(map(tuple, obs['steps'][i - 1]['root']))[sub]:
+                    return 'downloader: an upgraded dataset was modified by a later step'
+    if not calm:
+        return None
+    for sub, t0 in trees:
+        if kinds[sub] != '1.0':
+            continue
+        who = 'downloader'
+        exp = expected_content(_single(t0), strict=False)
+        o = obs['views'][sub]
+        if o['view'] is None:
+            return f'{who}: the installed dataset does not load: {o["exc"]}'
+        if o['view']['version'] != '1.1':
+            return f'{who}: the installed dataset does not load as version 1.1'
+        final = dict(map(tuple, obs['steps'][-1]['root']))[sub]
+        sig = _cmp_view(o['view'], exp, who, obs['baselines'].get(sub)) or _declares_11(final, who)
+        if sig:
+            return sig
+        if final['rd'] != t0.get('rd'):
+            return f'{who}: sensors/records_data changed'
+        for rel, v in t0['top'].items():
+            if rel not in CSV_1_0 and rel != OBS and final['top'].get(rel) != v:
+                return f'{who}: unrelated file {rel} changed'
+    return None
+
+
+def _norm_tree(t):
+    """A case tree in the shape snapshot() gives (absent folders None, file entries as lists)."""
+    out = {'top': {k: list(v) for k, v in t['top'].items()}}
+    for key in FOLDERS:
+        F = t.get(key)
+        out[key] = None if F is None else {k: list(v) for k, v in F.items()}
+    # an empty folder that materialise() creates is seen as an empty folder
+    return out
+
+
+def encode_session(case, obs):
+    trees = dict(_session_trees(case))
+    kinds = {sub: session_kind(t) for sub, t in trees.items()}
+    any_raise = any(so['raised'] for so in obs['steps'])
+    steps = []
+    for st, so in zip(case['session']['steps'], obs['steps']):
+        step = '(Install %s %s)' % (kv.cstr(st['sub']), c_tree(st['tree'])) if st['op'] == 'install' else 'Again'
+        root = kv.clist(kv.cpair(kv.cstr(sub), c_tree(snap)) for sub, snap in so['root'])
+        steps.append('(mkStepObs %s %s %s)' % (step, 'true' if so['raised'] else 'false', root))
+    views = []
+    for sub in trees:
+        if kinds[sub] == '1.0' and not any_raise:
+            views.append(kv.cpair(kv.cstr(sub), '(Some %s)' % c_view(obs['views'][sub]['view'])))
+        else:
+            views.append(kv.cpair(kv.cstr(sub), 'None'))
+    return '(MDlUpgrade.Session (mkSess %s %s))' % (kv.clist(steps), kv.clist(views))
 
 
 # ------------------------------------------------------------------------------------------------ the property, stated on the observations
@@ -451,6 +624,8 @@ def _declares_11(tree, who):
 
 def oracle(case, obs):
     """The property, stated on what the two routes did (independent of the Coq model)."""
+    if 'session' in case:
+        return oracle_session(case, obs)
     tree = case['tree']
     exp_in = expected_content(case, strict=False)
     exp_cp = expected_content(case, strict=True)
@@ -572,6 +747,8 @@ def c_rd(rd):
 
 
 def encode(case, obs):
+    if 'session' in case:
+        return encode_session(case, obs)
     o = obs['inplace']
     copies = []
     for k in obs['copies']:
@@ -579,8 +756,8 @@ def encode(case, obs):
         copies.append('(mkCopyObs %s %s %s %s %s %s)' % (
             _ST[k['strategy']], _OC[k['outcome']], c_tree(k['tree'] if done else _EMPTY), c_rd(k.get('rd')),
             c_ofolder(k['src_rd']), c_view(k.get('view'))))
-    return '(mkCase %s %s %s %s %s %s)' % (c_tree(case['tree']), c_args(case['args']), _OC[o['outcome']], c_tree(o['tree']),
-                                          c_view(o.get('view')), kv.clist(copies))
+    return '(MDlUpgrade.Single (mkCase %s %s %s %s %s %s))' % (
+        c_tree(case['tree']), c_args(case['args']), _OC[o['outcome']], c_tree(o['tree']), c_view(o.get('view')), kv.clist(copies))
 
 
 # ------------------------------------------------------------------------------------------------ generator
@@ -1007,11 +1184,69 @@ def gen_exhaustive(kt_given, versions):
     return out
 
 
+
+ROOT_POOL = ['datasets', 'my datasets', 'data[1]', 'kapture*sets', '.cache/kapture', 'a?b', 'donn\u00e9es', '[v1.0]']
+
+
+def _downloadable(rng, tmp):
+    """A 1.0 dataset in the domain when every type name is defaulted and both metrics are L2 (what the downloader asks)."""
+    for _ in range(40):
+        c = gen_valid(rng, tmp)
+        a = c['args']
+        if a['kt'] is None and a['dt'] is None and a['gt'] is None and wants_upgrade(c['tree']) \
+                and expected_content(_single(c['tree']), strict=False) is not None:
+            return c['tree']
+    return gen_exhaustive(False, True)[rng.randrange(32)]['tree']
+
+
+def _not_a_1_0_dataset(rng, tmp):
+    """A directory the downloader must leave alone: its sensors.txt declares 1.1 or something else (no feature folders:
+    the orphan-features pass is not modelled)."""
+    t = _downloadable(rng, tmp)
+    for k in ('kp', 'ds', 'gf', 'mt'):
+        t[k] = None
+    t['top'].pop(OBS, None)
+    new = rng.choice([FMT11, FMT11, '# kapture format: 2.0', '# kapture format: 0.9'])
+    for rel in list(t['top']):
+        if rel in CSV_1_0:
+            body = t['top'][rel][1].split('\n')
+            if py_version(t['top'][rel][1]) is not None:
+                body = body[1:]
+            t['top'][rel] = ['T', '\n'.join([new] + body)]
+    return t
+
+
+def gen_session(rng, tmp):
+    n = rng.choice([1, 2, 2, 2, 3, 3, 4])
+    shared = rng.random() < 0.75           # one InstallDir object for the whole history (one run of the tool)
+    steps = []
+    bad_last = rng.random() < 0.08
+    for i in range(n):
+        name = 'ds%s' % 'ABCD'[i]
+        sub = name + rng.choice(['', '', '/mapping', '/query', '/.v1', '/a b'])
+        r = rng.random()
+        if bad_last and i == n - 1:
+            for _ in range(20):
+                tree = gen_malformed(rng, tmp)['tree']
+                if wants_upgrade(tree) and expected_content(_single(tree), strict=False) is None:
+                    break
+            else:
+                tree = _downloadable(rng, tmp)
+        elif r < 0.15:
+            tree = _not_a_1_0_dataset(rng, tmp)
+        else:
+            tree = _downloadable(rng, tmp)
+        steps.append({'op': 'install', 'name': name, 'sub': sub, 'tree': tree, 'fresh': (not shared) or rng.random() < 0.1})
+        if rng.random() < 0.2 and not (bad_last and i == n - 1):
+            steps.append({'op': 'again', 'which': rng.randrange(4), 'fresh': (not shared) or rng.random() < 0.3})
+    return {'session': {'root': rng.choice(ROOT_POOL), 'steps': steps}, 'stream': 'session'}
+
+
 def gen_cases(rng, tier):
     _quiet()
     tmp = os.path.join(kv.BUILD, 'tmp', 'C20-gen-%d' % os.getpid())
     os.makedirs(tmp, exist_ok=True)
-    n_valid, n_mal = (100, 40) if tier == 'quick' else (900, 300)
+    n_valid, n_mal, n_sess = (85, 35, 24) if tier == 'quick' else (850, 280, 200)
     cases = gen_exhaustive(False, True) + gen_dtype_block()
     if tier != 'quick':
         cases += gen_exhaustive(True, True) + gen_exhaustive(False, False) + gen_exhaustive(True, False)
@@ -1020,6 +1255,8 @@ def gen_cases(rng, tier):
             cases.append(gen_valid(rng, tmp))
         for _ in range(n_mal):
             cases.append(gen_malformed(rng, tmp))
+        for _ in range(n_sess):
+            cases.append(gen_session(rng, tmp))
     finally:
         shutil.rmtree(tmp, ignore_errors=True)
     return cases
@@ -1027,6 +1264,8 @@ def gen_cases(rng, tier):
 
 # ------------------------------------------------------------------------------------------------ evidence helpers
 def nontrivial(case, obs):
+    if 'session' in case:
+        return sum(1 for _, t in _session_trees(case) if session_kind(t) == '1.0') >= 1
     t = case['tree']
     if expected_content(case, strict=False) is None:
         return False
@@ -1035,6 +1274,13 @@ def nontrivial(case, obs):
 
 
 def classify(case, obs):
+    if 'session' in case:
+        ks = [session_kind(t) for _, t in _session_trees(case)]
+        steps = case['session']['steps']
+        shared = not any(st.get('fresh') for st in steps[1:])
+        return 'session/datasets=%d/other=%d/bad=%d/again=%d/%s/raised=%d' % (
+            len(ks), ks.count('other'), ks.count('bad'), sum(1 for st in steps if st['op'] != 'install'),
+            'one-object' if shared else 'new-objects', sum(1 for so in obs['steps'] if so['raised']))
     t = case['tree']
     parts = ''.join(c for c, k in (('K', 'kp'), ('D', 'ds'), ('G', 'gf'), ('M', 'mt')) if t.get(k) is not None)
     parts += 'O' if OBS in t['top'] else ''
@@ -1044,6 +1290,12 @@ def classify(case, obs):
 
 
 def describe(case, obs):
+    if 'session' in case:
+        return {'install_root': case['session']['root'],
+                'steps': [{'op': st['op'], 'dir': st.get('sub'), 'new InstallDir object': bool(st.get('fresh')),
+                           'kind': session_kind(st['tree']) if st['op'] == 'install' else None,
+                           'raised': so['raised'], 'exc': so['exc'], 'returned': so['ret']}
+                          for st, so in zip(case['session']['steps'], obs['steps'])]}
     t = case['tree']
     return {'files': {k: sorted(t[k]) if t.get(k) is not None else None for k in ('top', 'kp', 'ds', 'gf', 'mt', 'rd')},
             'args': case['args'], 'strategies': case['strategies'],
@@ -1055,6 +1307,25 @@ def describe(case, obs):
 def shrink(case):
     """Smaller variants that stay reference-closed: strategies, whole feature folders, record files, files that are no
     part of the dataset, tables nothing else refers to, single feature data files."""
+    if 'session' in case:
+        steps = case['session']['steps']
+        for i in range(len(steps)):
+            rest = steps[:i] + steps[i + 1:]
+            if any(st['op'] == 'install' for st in rest) and rest[0]['op'] == 'install':
+                c = copy.deepcopy(case)
+                c['session']['steps'] = copy.deepcopy(rest)
+                yield c
+        if case['session']['root'] != 'datasets':
+            c = copy.deepcopy(case)
+            c['session']['root'] = 'datasets'
+            yield c
+        for i, st in enumerate(steps):
+            if st['op'] == 'install':
+                for sm in shrink({'tree': st['tree'], 'args': DL_ARGS, 'strategies': []}):
+                    c = copy.deepcopy(case)
+                    c['session']['steps'][i]['tree'] = sm['tree']
+                    yield c
+        return
     t = case['tree']
     if len(case['strategies']) > 1:
         for s in case['strategies']:
